@@ -198,6 +198,7 @@ var Properties = map[string]PropDef{
 			{Name: "parser.ZZC19ParseTwice", Quick: map[string]int{"N1": 1, "N2": 2}, Thorough: map[string]int{"N1": 2, "N2": 2}, Depth: 100, Loop: 100, MaxPaths: 3000000},
 			{Name: "process.ZZC19TypecheckTwice"},
 			{Name: "types.ZZC19EqualAfterHistory", Quick: map[string]int{"K": 2, "D": 0}, Thorough: map[string]int{"K": 2, "D": 1}, Depth: 200},
+			{Name: "zzpub.ZZParseTwice", Depth: 400, Loop: 3000, Note: "7 first texts (rejected after complete statements, rejected early, empty, accepted) x 4 second texts"},
 			{Name: "zzpub.ZZRunTwice", Depth: 400, Loop: 3000, MaxPaths: 3000000, Sched: true, Note: "two whole runs in one heap: 7 first programs (accepted, rejected, unparseable) x 5 second programs x polarised modes, every schedule of both"},
 		},
 	},
